@@ -314,7 +314,7 @@ func (vb *valueBuilder) read(terms []*Term) []*big.Int {
 	}
 	var need []*Term
 	for _, t := range terms {
-		if _, ok := vb.pins[t]; !ok && !t.IsConst() {
+		if _, ok := vb.pins[t]; !ok && !t.IsConst() && t.Sort.K != KStr {
 			need = append(need, t)
 		}
 	}
@@ -508,6 +508,13 @@ func (vb *valueBuilder) goValue(t types.Type, slots []*Term, depth int) string {
 		es := L.Size(ut.Elem())
 		n := cp.Int64()
 		var elems []string
+		// one model query for all elements
+		var all []*Term
+		for i := int64(0); i < n; i++ {
+			off := new(big.Int).Add(v[1], big.NewInt(i*es))
+			all = append(all, vb.memTerms(ut.Elem(), v[0], off)...)
+		}
+		vb.read(all)
 		for i := int64(0); i < n; i++ {
 			off := new(big.Int).Add(v[1], big.NewInt(i*es))
 			elems = append(elems, vb.goValue(ut.Elem(), vb.memTerms(ut.Elem(), v[0], off), depth+1))
@@ -623,12 +630,50 @@ func genReplayTest(u *Unit, r *Result, w *World, scratch string) (string, []stri
 		pkg = w.stubs[con].Pkg.Pkg
 	}
 	vb := &valueBuilder{u: u, o: r.Obl, scratch: scratch, pins: map[*Term]*big.Int{}, pkg: pkg, imports: map[string]string{}, backing: map[string]string{}}
-	// pin the scalar model
-	for _, in := range u.Inputs {
-		for _, sl := range in.Slots {
-			if v, ok := r.Model[sl.Name]; ok {
-				if bv, ok := parseBV(v); ok {
-					vb.pins[sl] = bv
+	// prefer a model with small slices / strings: re-solve with size bounds on the inputs
+	small := false
+	for _, bound := range []uint64{64, 4096} {
+		var extra, scalars []*Term
+		for _, in := range u.Inputs {
+			i := 0
+			walkSlots(u.W.layout, in.Type, func(kind string, n int) {
+				if kind == "slice" {
+					extra = append(extra, u.tb.Ule(in.Slots[i+3], u.tb.BVU(64, bound)))
+				} else if kind == "string" {
+					extra = append(extra, u.tb.Ule(u.slen(in.Slots[i]), u.tb.BVU(64, bound)))
+				}
+				i += n
+			})
+			for _, sl := range in.Slots {
+				if sl.Sort.K != KStr {
+					scalars = append(scalars, sl)
+				}
+			}
+		}
+		if len(extra) == 0 {
+			break
+		}
+		pins := map[*Term]*big.Int{}
+		for k, e := range extra {
+			_ = k
+			pins[e] = big.NewInt(1)
+		}
+		if vals, ok := evalTerms(u, r.Obl, pins, scalars, scratch); ok {
+			for _, sl := range scalars {
+				vb.pins[sl] = vals[sl.id]
+			}
+			small = true
+			break
+		}
+	}
+	// otherwise pin the scalar model of the failed query
+	if !small {
+		for _, in := range u.Inputs {
+			for _, sl := range in.Slots {
+				if v, ok := r.Model[sl.Name]; ok {
+					if bv, ok := parseBV(v); ok {
+						vb.pins[sl] = bv
+					}
 				}
 			}
 		}
